@@ -144,7 +144,7 @@ def rpath(p):
 def build_goto_c(h, tier, wd, extra_defs, tag):
     """E1: goto-cc on real C units + harness."""
     std = c_std()
-    flags = [std, '-DNDEBUG', '-w'] + repo_includes() + ['-I' + REPO, '-I' + LIB, '-I' + os.path.dirname(vpath(h.harness))] + h.cflags
+    flags = [std, '-DNDEBUG', '-DVERIF_CBMC=1', '-w', '-I' + os.path.join(LIB, 'cshadow')] + repo_includes() + ['-I' + REPO, '-I' + LIB, '-I' + os.path.dirname(vpath(h.harness))] + h.cflags
     defs = defflags(dict(h.tier_defs(tier), **extra_defs))
     objs = []
     for i, src in enumerate(h.repo_srcs):
@@ -204,7 +204,7 @@ def build_irc_c(h, tier, wd, extra_defs):
     return genc, slim
 
 def build_goto_irc(h, tier, wd, extra_defs, tag, genc):
-    flags = ['-w', '-I' + LIB, '-I' + os.path.dirname(vpath(h.harness))]
+    flags = ['-w', '-DVERIF_CBMC=1', '-I' + LIB, '-I' + os.path.dirname(vpath(h.harness))]
     defs = defflags(dict(h.tier_defs(tier), **extra_defs))
     objs = []
     for i, src in enumerate([genc, vpath(h.harness)] + [vpath(x) for x in h.extra + h.models]):
@@ -355,7 +355,7 @@ def build_native_real(h, tier, wd, extra_defs, sanitize):
     san = SAN if sanitize else []
     objs = []
     if h.engine == 'c':
-        flags = [c_std(), '-DNDEBUG', '-w', '-g', '-O0'] + repo_includes() + ['-I' + REPO, '-I' + LIB, '-I' + os.path.dirname(vpath(h.harness))] + h.cflags + h.native_cflags
+        flags = [c_std(), '-DNDEBUG', '-w', '-g', '-O0', '-fno-pie'] + repo_includes() + ['-I' + REPO, '-I' + LIB, '-I' + os.path.dirname(vpath(h.harness))] + h.cflags + h.native_cflags
         srcs = [rpath(s) for s in (h.native_srcs if h.native_srcs is not None else h.repo_srcs)] + [vpath(h.harness)] + [vpath(x) for x in h.extra + h.native_extra]
         for i, s in enumerate(srcs):
             o = os.path.join(wd, 'n%d%s.o' % (i, '_san' if sanitize else ''))
@@ -363,7 +363,7 @@ def build_native_real(h, tier, wd, extra_defs, sanitize):
             if rc != 0:
                 raise Fault('native gcc failed on %s:\n%s' % (s, out[-3000:]))
             objs.append(o)
-        rc, out, _, _ = run(['gcc'] + san + objs + ['-o', exe, '-lm'])
+        rc, out, _, _ = run(['gcc', '-no-pie', '-Wl,--unresolved-symbols=ignore-all'] + san + objs + ['-o', exe, '-lm'])
     else:
         cxxflags = ['-std=c++11', '-w', '-g', '-O0'] + repo_includes() + ['-I' + LIB, '-I' + os.path.dirname(vpath(h.wrapper))] + h.native_cflags
         srcs = [rpath(s) for s in (h.native_srcs if h.native_srcs is not None else h.repo_srcs)] + [vpath(h.wrapper)] + [vpath(x) for x in h.native_extra]
